@@ -39,6 +39,7 @@ type lexer struct {
 	posShift   int
 	width      int
 	tokens     chan token
+	inputsDone bool
 }
 
 type stateFn func(*lexer) stateFn
@@ -80,20 +81,20 @@ const (
 
 // next gets the next rune from the input.
 func (l *lexer) next() (r rune) {
-	if l.pos >= len(l.input) {
+	// refill when the input is used up, and also when it ends inside
+	// a multi-byte character that the next chunk may complete
+	for !l.inputsDone && (l.pos >= len(l.input) ||
+		!utf8.FullRuneInString(l.input[l.pos:])) {
 		verifPoint(10)
 		s, ok := <-l.inputs
 		if !ok {
-			if l.pos == l.start {
-				l.width = 0
-				return eof
-			}
-			// continue with leftover + s
+			l.inputsDone = true
+			break
 		}
-		l.input = l.input[l.start:l.pos] + s
-		l.posShift += l.start
-		l.lpUpd(s, l.posShift+l.pos-l.start)
+		l.lpUpd(s, l.posShift+len(l.input))
 		verifPoint(11)
+		l.input = l.input[l.start:] + s
+		l.posShift += l.start
 		l.pos -= l.start
 		l.start = 0
 	}
